@@ -104,13 +104,19 @@ class FakeSession:
 
     def query(self, model):
         self.store.cb("query_token")
+        self._begin = [(t, dict(t.__dict__)) for t in self.store.tokens]     # transaction start: what a rollback restores
         return FakeQuery(list(self.store.tokens))
 
     def add(self, obj):
         pass
 
     def commit(self):
-        self.store.cb("commit")
+        try:
+            self.store.cb("commit")
+        except Fault:
+            for t, d in getattr(self, "_begin", []):      # a failed commit leaves the database as it was
+                t.__dict__.clear(); t.__dict__.update(d)
+            raise
 
 
 class DeviceCred(DeviceCredentialMixin):
@@ -141,6 +147,7 @@ class Store:
         self.jtis = set()
         self.fresh = 0
         self.trace = []            # callback names in invocation order (per request; reset by caller)
+        self.events = []           # callbacks + "gen" (a credential string was generated) + "respond" (response object built)
         self.fail_at = None        # index of the callback invocation that raises Fault
         self.users = {1: User(1), 2: User(2)}
         self.jwt = {"key": "id-token-secret", "alg": "HS256", "iss": "https://as.example", "exp": 3600}
@@ -151,8 +158,10 @@ class Store:
         self.trace.append(name)
         if self.fail_at is not None and i == self.fail_at:
             raise Fault(f"injected fault at callback #{i} {name}")
+        self.events.append(name)
 
     def nxt(self, prefix):
+        self.events.append("gen")
         self.fresh += 1
         return f"{prefix}{self.fresh}"
 
@@ -210,6 +219,7 @@ class MemServer(AuthorizationServer):
         return JsonRequest(request.method, request.uri, request.form, request.headers)
 
     def handle_response(self, status, body, headers):
+        self.store.events.append("respond")
         return Resp(status, body, headers)
 
 
